@@ -141,6 +141,56 @@ Theorem C19_standard_dims_error_zsqrt :
   forall n, n <> 0 -> n <> 1 -> n mod 3 <> 0 \/ n < 0 -> standard_system_dimensions n = Failed 0.
 Proof. exact standard_dims_error. Qed.
 
+(* The budgeted loop used to evaluate the models on very large board counts answers as the models do. *)
+Theorem C19_standard_dims_gas_correct :
+  forall gas n, standard_system_dimensions_gas gas n <> OutOfFuel ->
+                standard_system_dimensions_gas gas n = standard_system_dimensions n.
+Proof. exact standard_dims_gas_correct. Qed.
+
+Theorem C19_standard_dims_f_gas_correct :
+  forall gas n, standard_system_dimensions_f_gas gas n <> OutOfFuel ->
+                standard_system_dimensions_f_gas gas n = standard_system_dimensions_f n.
+Proof. exact standard_dims_f_gas_correct. Qed.
+
+(* A generator of spinn5_eth_coords that is not run to the end (next() n times, a loop left with break):
+   the n results are distinct Ethernet chips of the machine, n of them unless fewer exist.  The functions
+   keep no state (inventory obligation of the dumper), so this holds whatever happened before. *)
+Theorem C19_eth_coords_take_spec :
+  forall n width height rx ry,
+    NoDup (eth_coords_take n width height rx ry) /\
+    (forall e, In e (eth_coords_take n width height rx ry) -> in_machine width height e /\ is_eth (rx, ry) e) /\
+    length (eth_coords_take n width height rx ry) = Nat.min n (length (spinn5_eth_coords width height rx ry)).
+Proof. exact eth_coords_take_spec. Qed.
+
+(* `c in spinn5_eth_coords(...)` *)
+Theorem C19_eth_coords_contains_spec :
+  forall c width height rx ry,
+    eth_coords_contains c width height rx ry = true <-> (in_machine width height c /\ is_eth (rx, ry) c).
+Proof. exact eth_coords_contains_spec. Qed.
+
+(* Ragged machines whose board's Ethernet chip is not in the machine (in particular machines smaller than
+   a board) are outside the property; there the function still names a chip of the machine. *)
+Theorem C19_local_eth_in_machine :
+  forall x y w h rx ry, 0 < w -> 0 < h ->
+    exists e, spinn5_local_eth_coord x y w h rx ry = Ok e /\ in_machine w h e.
+Proof. exact local_eth_in_machine. Qed.
+
+(* numpy signed integer scalars (int8 ... int64) as arguments: every value that takes part in fixed-width
+   arithmetic inside the two kernels -- the list is extracted from the source on every run -- fits the
+   dtype when the arguments fit and are not negative, so wrapping arithmetic computes the model's value. *)
+Theorem C19_chip_coord_steps_fit :
+  forall N x y rx ry, 8 <= N ->
+    0 <= x < 2 ^ (N - 1) -> 0 <= y < 2 ^ (N - 1) -> 0 <= rx < 2 ^ (N - 1) -> 0 <= ry < 2 ^ (N - 1) ->
+    Forall (fits N) (spinn5_chip_coord_steps x y rx ry).
+Proof. exact chip_coord_steps_fit. Qed.
+
+Theorem C19_local_eth_steps_fit :
+  forall N x y w h rx ry, 8 <= N ->
+    0 <= x < 2 ^ (N - 1) -> 0 <= y < 2 ^ (N - 1) -> 0 < w < 2 ^ (N - 1) -> 0 < h < 2 ^ (N - 1) ->
+    0 <= rx < 2 ^ (N - 1) -> 0 <= ry < 2 ^ (N - 1) ->
+    Forall (fits N) (spinn5_local_eth_coord_steps x y w h rx ry).
+Proof. exact local_eth_steps_fit. Qed.
+
 (* Non-vacuity. *)
 Example C19_board_eth_satisfiable : board_eth (3, 5) (10, 9) (3, 5).
 Proof. exact ex_board_eth. Qed.
@@ -158,6 +208,11 @@ Proof. exact ex_links. Qed.
 Example C19_standard_dims_instance :
   standard_system_dimensions 18 = Ok (36, 24) /\ squarest 6 3 2.
 Proof. exact ex_dims. Qed.
+
+Example C19_big_board_count_instance :
+  standard_system_dimensions_f_gas 100 (3 * ((2 ^ 27 + 1) * (2 ^ 27 + 3)))
+  = Ok ((2 ^ 27 + 3) * 12, (2 ^ 27 + 1) * 12).
+Proof. vm_compute. reflexivity. Qed.
 
 Example C19_standard_dims_float_instance :
   standard_system_dimensions_f 18 = Ok (36, 24) /\ float_isqrt_f 4503599627370495 = Ok 67108863.
